@@ -20,6 +20,8 @@ Everything else of the engine is explored, not proved: the harness runs statemen
 which panics the query path converts into errors is a regenerated fact (`facts_match`).
 -/
 import Gms.Model.Crash
+import Gms.Model.SliceMap
+import Gms.Model.StoredReparse
 import Gms.Lemmas.RangeMap
 import Gms.Generated.C10
 
@@ -30,6 +32,111 @@ theorem unescape_strict_never_crashes (s : Bytes) : unescape true s ≠ .crash :
   all_goals (first | (split <;> simp_all) | skip)
 
 end Gms.JsonQuote
+
+
+namespace Gms.SliceMap
+open Gms.Utf8 Gms.ScalarFn
+
+/-- `strings.Index` reports an offset inside the string it searched. -/
+theorem indexOf_le (sub : Bytes) : ∀ (t : Bytes) (r : Nat), indexOf sub t = some r → r ≤ t.length
+  | [], r, h => by
+    unfold indexOf at h
+    split at h <;> simp_all
+  | c :: cs, r, h => by
+    unfold indexOf at h
+    split at h
+    · simp at h; omega
+    · cases hi : indexOf sub cs with
+      | none => simp [hi] at h
+      | some k =>
+        have := indexOf_le sub cs k hi
+        simp [hi] at h
+        simp only [List.length_cons]; omega
+
+/-- `utf8.DecodeRune` never reports a width beyond the bytes it was given. -/
+theorem decodeRune1_width_le (b0 : Nat) (rest : Bytes) : (decodeRune1 b0 rest).2 ≤ rest.length + 1 := by
+  unfold decodeRune1
+  split
+  · simp
+  · split <;> (try split) <;> simp <;> omega
+
+theorem runeOffset_le : ∀ (k : Nat) (s : Bytes), runeOffset k s ≤ s.length
+  | 0, _ => by simp [runeOffset]
+  | _ + 1, [] => by simp [runeOffset]
+  | k + 1, b0 :: rest => by
+    have hw := decodeRune1_width_le b0 rest
+    have ih := runeOffset_le k ((b0 :: rest).drop (decodeRune1 b0 rest).2)
+    simp only [runeOffset, List.length_cons]
+    simp only [List.length_drop, List.length_cons] at ih
+    omega
+
+end Gms.SliceMap
+
+namespace Gms.StoredReparse
+
+theorem step_preserves_inv {Text : Type} (parses : Opts → Text → Bool) (pol : Policy) (s : St Text) (x : Stmt Text)
+    (h : Inv parses s) : Inv parses (step parses pol s x).1 := by
+  cases x with
+  | setMode m => exact h
+  | create n t =>
+    simp only [step]
+    split
+    · exact h
+    · split
+      · exact h
+      · intro e he
+        simp only [List.mem_cons] at he
+        rcases he with rfl | he
+        · simp_all
+        · exact h e he
+  | call n =>
+    simp only [step]
+    split
+    · exact h
+    · split <;> exact h
+  | list =>
+    simp only [step]
+    split <;> exact h
+
+theorem lookup_mem {Text : Type} (s : St Text) (n : Nat) (r : Mode) (t : Text) (h : s.lookup n = some (r, t)) :
+    ∃ e ∈ s.store, e.2.1 = r ∧ e.2.2 = t := by
+  unfold St.lookup at h
+  cases hf : s.store.find? (fun e => e.1 == n) with
+  | none => simp [hf] at h
+  | some e =>
+    simp [hf] at h
+    exact ⟨e, List.mem_of_find?_eq_some hf, by rw [h], by rw [h]⟩
+
+/-- With the recorded-mode policy one statement never panics on a store that satisfies the invariant. -/
+theorem step_recorded_no_crash {Text : Type} (parses : Opts → Text → Bool) (s : St Text) (x : Stmt Text)
+    (h : Inv parses s) : (step parses recordedPolicy s x).2 ≠ .crash := by
+  cases x with
+  | setMode m => simp [step]
+  | create n t => simp only [step]; split <;> (try split) <;> simp
+  | call n =>
+    simp only [step]
+    split
+    · simp
+    · rename_i r t hl
+      obtain ⟨e, he, h1, h2⟩ := lookup_mem s n r t hl
+      have := h e he
+      simp [recordedPolicy, ← h1, ← h2, this]
+  | list =>
+    simp only [step]
+    have : s.store.all (fun e => parses (optsOf (recordedPolicy e.2.1 s.sess)) e.2.2) = true := by
+      simp only [List.all_eq_true, recordedPolicy]
+      exact fun e he => h e he
+    simp [this]
+
+theorem run_recorded_no_crash {Text : Type} (parses : Opts → Text → Bool) :
+    ∀ (h : List (Stmt Text)) (s : St Text), Inv parses s → Obs.crash ∉ run parses recordedPolicy s h
+  | [], _, _ => by simp [run]
+  | x :: xs, s, hi => by
+    simp only [run, List.mem_cons, not_or]
+    exact ⟨fun e => step_recorded_no_crash parses s x hi e.symm,
+      run_recorded_no_crash parses xs _ (step_preserves_inv parses recordedPolicy s x hi)⟩
+
+end Gms.StoredReparse
 
 namespace Gms.Crash
 
@@ -45,6 +152,7 @@ end Gms.Crash
 
 namespace Gms.C10
 open Gms.RangeMap Gms.Crash Gms.JsonQuote
+open Gms.SliceMap Gms.StoredReparse
 
 /-! ### regenerated facts -/
 
@@ -115,6 +223,159 @@ theorem fixed_rangemap_encode_unguarded_tail :
 example : encodeG true Generated.C10.latin1 [104, 0xC3, 0xA9] = .ok [104, 0xE9] ∧
     decode Generated.C10.utf16 [0, 0x41] = .ok [0x41] ∧ replace Generated.C10.latin1 [0xC4, 0x80, 97, 98, 99, 100] = .ok [63, 97, 98, 99, 100] := by
   decide +kernel
+
+
+/-! ### LOCATE: offsets in a case-mapped copy -/
+
+/-- The shape of `Locate.Eval` as read from the source on every run: the three guards of the edge-case
+switch, the ONLY slice expression of the function (`str[position-1:]`, in bounds by the guards:
+`locate_total_safe`) and the value returned after `strings.Index` (`res + position`: the offset found
+in the lower-cased copy is never used to index the original string). -/
+theorem facts_locate :
+    Generated.C10.locateGuards =
+      ["position <= 0 || (len(str) > 0 && position > len(str))", "len(substr) == 0 && len(str) == 0", "position > len(str)"] ∧
+    Generated.C10.locateSlices = ["str[position-1:]"] ∧
+    Generated.C10.locateResult = "int32(res + position)" := by decide
+
+/-- **`Locate.Eval` never panics**, whatever the case mapping does to the lengths of the strings. -/
+theorem locate_total_safe (lower : Utf8.Bytes → Utf8.Bytes) (sub str : Utf8.Bytes) (position : Int) :
+    locateG lower sub str position ≠ none := by
+  unfold locateG
+  simp only
+  split
+  · simp
+  · split
+    · split <;> simp
+    · split
+      · simp
+      · rename_i h1 _ h3
+        have hs : sliceFrom str (position - 1) = some (str.drop (position - 1).toNat) := by
+          unfold sliceFrom
+          rw [if_pos]
+          constructor <;> omega
+        rw [hs]
+        simp only
+        split <;> simp
+
+/-- The model of this file is C34's model of the same function (`ScalarFn.locateImpl`, validated
+there against the real code on ASCII-case strings) when the mapping is the ASCII one. -/
+theorem locateG_eq_locateImpl (sub str : Utf8.Bytes) (position : Int) :
+    locateG (ScalarFn.mapCase ScalarFn.lowerByte) sub str position = some (ScalarFn.locateImpl sub str position) := by
+  unfold locateG ScalarFn.locateImpl
+  simp only
+  split
+  · rfl
+  · split
+    · split <;> rfl
+    · split
+      · rfl
+      · rename_i h1 _ h3
+        have hs : sliceFrom str (position - 1) = some (str.drop (position - 1).toNat) := by
+          unfold sliceFrom
+          rw [if_pos]
+          constructor <;> omega
+        rw [hs]
+        simp only
+        split <;> simp_all
+
+/-- The class the property excludes — slicing the ORIGINAL string with an offset found in its
+case-mapped copy — is safe exactly as long as the mapping never lengthens a string … -/
+theorem mapped_offset_safe_of_nonexpanding (lower : Utf8.Bytes → Utf8.Bytes)
+    (hlen : ∀ t, (lower t).length ≤ t.length) (sub str : Utf8.Bytes) (position : Int) :
+    locateMapped lower sub str position ≠ none := by
+  unfold locateMapped
+  simp only
+  split
+  · simp
+  · split
+    · split <;> simp
+    · split
+      · simp
+      · have hle := runeOffset_le (position - 1).toNat str
+        have hs : sliceFrom str ((runeOffset (position - 1).toNat str : Nat) : Int) =
+            some (str.drop (runeOffset (position - 1).toNat str)) := by
+          unfold sliceFrom
+          rw [if_pos]
+          · simp
+          · constructor <;> omega
+        rw [hs]
+        simp only
+        split
+        · simp
+        · rename_i res hres
+          have h1 := indexOf_le _ _ _ hres
+          have h2 := hlen (str.drop (runeOffset (position - 1).toNat str))
+          simp only [List.length_drop] at h2
+          have : slice str ((runeOffset (position - 1).toNat str : Nat) : Int) ((runeOffset (position - 1).toNat str : Nat) + (res : Nat)) ≠ none := by
+            unfold slice
+            rw [if_pos]
+            · simp
+            · refine ⟨by omega, by omega, ?_⟩
+              omega
+          split
+          · rename_i hn; exact absurd hn this
+          · simp
+
+/-- … and Go's case mapping does lengthen strings: on the table regenerated from the compiled code
+(`unicode.ToLower` of the harness alphabet) some rune has a longer lower-case encoding. -/
+theorem facts_case_table_expands :
+    ∃ e ∈ Generated.C10.caseTable, (Utf8.encodeRune e.1).length < (Utf8.encodeRune e.2.1).length := by decide
+
+/-- Witness of the class on that table: `LOCATE('x', 'ȺȺx')` — two characters in front of the match
+whose lower case is one byte longer. The mapped-offset variant slices `str[0:6]` of a 5-byte string;
+`Locate.Eval` as written returns 7 (the byte offset in the lower-cased copy, a C34 matter, not a panic);
+with ONE such character the overshoot still fits into the string (result off by one, no panic). -/
+theorem mapped_offset_crash_witness :
+    locateMapped (lowerWith Generated.C10.caseTable) [120] [0xC8, 0xBA, 0xC8, 0xBA, 120] 1 = none ∧
+    locateG (lowerWith Generated.C10.caseTable) [120] [0xC8, 0xBA, 0xC8, 0xBA, 120] 1 = some 7 ∧
+    locateMapped (lowerWith Generated.C10.caseTable) [120] [0xC8, 0xBA, 120] 1 = some 3 := by decide +kernel
+
+/-- Non-vacuity of `mapped_offset_safe_of_nonexpanding`: the identity mapping qualifies and finds the match. -/
+example : locateMapped id [120] [0xC8, 0xBA, 0xC8, 0xBA, 120] 1 = some 3 := by decide +kernel
+
+/-! ### stored routines are re-parsed under the recorded mode -/
+
+/-- `BuildProcedureHelper` as read from the source on every run: in front of `ParseWithOptions` the parser
+options are set UNCONDITIONALLY from the mode recorded with the routine (no such statement sits in a
+branch), the parse error is dropped (`stmt, _, _, _ :=`), the type assertion `stmt.(*ast.DDL)` is
+unchecked (so a text that does not parse is a panic: the model's `crash`), and CREATE PROCEDURE records
+`sql.LoadSqlMode(b.ctx).String()`. -/
+theorem facts_reparse :
+    Generated.C10.procReparseOptions = ["sql.NewSqlModeFromString(procDetails.SqlMode).ParserOptions()"] ∧
+    Generated.C10.procReparseOptionsInBranches = [] ∧
+    Generated.C10.procReparseLhs = ["stmt", "_", "_", "_"] ∧
+    Generated.C10.procReparseAssertChecked = false ∧
+    Generated.C10.procRecordedMode = "sql.LoadSqlMode(b.ctx).String()" := by decide
+
+/-- The parser options of the modes of the `(rp …)` cases, computed by the compiled code from the
+session and from the recorded string: they agree with each other and with the model's `optsOf`, and
+the recorded string is empty exactly for the empty mode list. -/
+theorem facts_mode_table :
+    ∀ e ∈ Generated.C10.modeTable,
+      e.2.2.1 = e.2.2.2 ∧ (optsOf e.1).ansiQuotes = e.2.2.1.1 ∧ (optsOf e.1).pipesAsConcat = e.2.2.1.2 ∧
+      e.2.1 = e.1.isEmpty := by decide
+
+/-- **A history of SET sql_mode / CREATE PROCEDURE / CALL / listings never panics**, for every parser
+and every text: the store only ever holds texts that parse under the mode recorded with them, and
+the re-parse uses that mode. -/
+theorem reparse_total_safe {Text : Type} (parses : Opts → Text → Bool) (m : Mode) (h : List (Stmt Text)) :
+    Obs.crash ∉ run parses recordedPolicy (St.init m) h :=
+  run_recorded_no_crash parses h (St.init m) (by intro e he; simp [St.init] at he)
+
+/-- The defect class: when an empty recorded mode makes the re-parse fall back to the CALLING session's
+options, a routine stored under `sql_mode = ''` whose text has a double-quoted string panics under
+ANSI_QUOTES — on CALL and on every listing. -/
+theorem session_mode_leak_crashes :
+    run rpParses emptyFallsBack (St.init ["STRICT_TRANS_TABLES"])
+      [.setMode [], .create 1 1, .setMode ["ANSI_QUOTES"], .call 1, .list, .setMode [], .call 1] =
+      [.ok, .ok, .ok, .crash, .crash, .ok, .ok] ∧
+    run rpParses recordedPolicy (St.init ["STRICT_TRANS_TABLES"])
+      [.setMode [], .create 1 1, .setMode ["ANSI_QUOTES"], .call 1, .list, .setMode [], .call 1] =
+      [.ok, .ok, .ok, .ok, .ok, .ok, .ok] := by decide
+
+/-- Non-vacuity: CREATE fails under ANSI_QUOTES for the same text (nothing is stored), succeeds without. -/
+example : run rpParses recordedPolicy (St.init ["ANSI"]) [.create 1 1, .call 1, .setMode [], .create 1 1, .create 1 0] =
+    [.err, .ok, .ok, .ok, .err] := by decide
 
 /-! ### Unquote -/
 
